@@ -7,6 +7,9 @@
 #   rem/mem of an Int                 -> unchanged (mem false); exception optional
 #   get/set (String implements neither) -> ClassError, unchanged
 #   print_to(s, len, "%s") without an argument -> FormatError, unchanged
+# plus mode=stack: print_to / show_to / format_to / assign / concat / append / resize with a stack String
+# ($S over a writable char array holding "0123456789", "abc" or "") as the receiver, at pos 0 / mid / end, with
+# outputs shorter than, equal to and longer than the current content -> ValueError, every byte of the array unchanged
 
 def T(name, variant, *args, **kw):
     d = dict(name=name, harness='h_string.c', variant=variant, args=list(args) + ['prop=C12'])
@@ -21,10 +24,15 @@ PARTS = {
     'quick': [
       T('string-ab5', 'base', 'alpha=2', 'maxlen=5'),
       T('string-ab4-asan', 'asan', 'alpha=2', 'maxlen=4'),
+      # stack Strings ($S over a writable array) as receivers: every write refused with ValueError, array unchanged
+      T('string-stack', 'base', 'mode=stack'),
+      T('string-stack-asan', 'asan', 'mode=stack'),
     ],
     'thorough': [
       T('string-abc5', 'base', 'alpha=3', 'maxlen=5'),
       T('string-ab5-asan', 'asan', 'alpha=2', 'maxlen=5'),
+      T('string-stack', 'base', 'mode=stack'),
+      T('string-stack-asan', 'asan', 'mode=stack'),
     ],
   },
 }
